@@ -470,6 +470,53 @@ pub fn gen_cases(o: &Opts, part: &str) -> Vec<Case> {
                 }
             }
         }
+        "coll" => {
+            // identifiers that collide under FxHash, as formula variables and in the ordering file, with the round trip
+            let n = if o.thorough { 20 } else { 4 };
+            for (k, f) in stext::collision_formulas(o.seed, n).iter().enumerate() {
+                let mut c = base(f);
+                c.channel = (k % 3) as u8;
+                c.roundtrip = k % 2 == 0;
+                v.push(c);
+            }
+            for (a, b) in stext::colliding_names(o.seed, n) {
+                let mut c = base(&format!("{a} & -{b} | c"));
+                c.ord = Some(format!("{b} c {a}").into_bytes());
+                c.roundtrip = true;
+                v.push(c);
+            }
+        }
+        "models" => {
+            // -m on formulas whose diagrams come from every evaluator path: counting (constants at the boundaries, list against
+            // list with operands shared at different multiplicities, names occurring in the right-hand list only), shadowing, random
+            let mut fs: Vec<String> = vec![];
+            for op in ["<=", "<", ">=", ">", "="] {
+                for (l, r) in [("a, a", "a, b"), ("a, a, c", "a, b"), ("a", "x"), ("p, q", "r"), ("a, b", "c, d"), ("a & b, c", "a, d"), ("", "a"), ("a, b, a", "b, b, c"), ("a | b", "a | b, c")] {
+                    fs.push(format!("[{l}] {op} [{r}]"));
+                    fs.push(format!("-a & ([{l}] {op} [{r}])"));
+                }
+                for n in [0, 1, 2, 3] {
+                    fs.push(format!("[a, b, c & a] {op} {n}"));
+                }
+            }
+            for (k, f) in stext::shadow_formulas().into_iter().enumerate() {
+                if k % 3 == 0 {
+                    fs.push(f);
+                }
+            }
+            let n = if o.thorough { 5_000 } else { 400 };
+            for k in 0..n {
+                let depth = 1 + rng.below(3) as u32;
+                let names: &[&str] = if k % 2 == 0 { &stext::NAMES3 } else { &stext::NAMES6 };
+                fs.push(stext::rand_formula(&mut rng, depth, names));
+            }
+            for (k, f) in fs.iter().enumerate() {
+                let mut c = base(f);
+                c.model = true;
+                c.filter = ["", "t", "", "f"][k % 4];
+                v.push(c);
+            }
+        }
         "shadow" => {
             for (k, f) in stext::shadow_formulas().iter().enumerate() {
                 let mut c = base(f);
@@ -509,7 +556,7 @@ pub fn gen_cases(o: &Opts, part: &str) -> Vec<Case> {
                     v.push(c);
                 }
             }
-            let k = if o.thorough { 11 } else { 10 };
+            let k = if o.thorough { 15 } else { 13 };
             let a: Vec<String> = (0..k).map(|i| format!("a{i}")).collect();
             let pairs: Vec<String> = (0..k).map(|i| format!("(a{i} & b{i})")).collect();
             // the a's come first in the variable order, so the diagram of the disjunction has about 2^k nodes
